@@ -217,6 +217,50 @@ def make_cases(chk) -> list[dict]:
         v = v_str(rnd.choice(["$v1", "$V1", "$v1$v1", "x$v1'", "$nope", "'$v1'", "$v10", "\\$v1", "%s$v1", "$$v1", "$"]) + rnd.choice(["", gen_str(rnd)]))
         pieces = [("lit", "select $v1, "), ("ph",), ("lit", ", $V1")]
         add("vars", style, [pstep(pieces, style, [v])], expect=[[("str", "hello"), ("str", v.py), ("str", "hello")]])
+    # K7b: sequences of executes on ONE cursor binding ==-equal values of different types (True/1.0/Decimal('1'),
+    # False/0.0/-0.0, 2.5/Decimal('2.5'), Decimal('1.1')/Decimal('1.10')): rendering a value must not depend on what the
+    # cursor bound before.  Read back untyped and through VARCHAR columns, where the literal's type/text is visible.
+    fams = [[True, 1.0, decimal.Decimal("1"), decimal.Decimal("1.0"), 1, decimal.Decimal("1.00")],
+            [False, 0.0, -0.0, decimal.Decimal("0"), decimal.Decimal("0.0"), 0],
+            [2.5, decimal.Decimal("2.5"), decimal.Decimal("2.50")],
+            [decimal.Decimal("1.1"), decimal.Decimal("1.10"), decimal.Decimal("1.100")],
+            [10.0, decimal.Decimal("10"), decimal.Decimal("1E+1"), 10]]
+
+    def fam_v(x):
+        if isinstance(x, bool):
+            return V(x, "bool", "b1" if x else "b0", "b")
+        if isinstance(x, decimal.Decimal):
+            return V(x, "Decimal", "S:" + enc_str(str(x)), "dc")
+        return V(x, type(x).__name__, "N:" + enc_str(repr(x)), "n")
+    for _ in range(max(40, n // 3)):
+        style = rnd.choice(["pyformat", "format"])
+        fam = rnd.choice(fams)
+        steps, last_expect = [], None
+        for _ in range(rnd.randint(2, 5)):
+            k = rnd.random()
+            a, b = fam_v(rnd.choice(fam)), fam_v(rnd.choice(fam))
+            if k < 0.35:
+                steps.append(pstep([("lit", "select "), ("ph",)], style, [a]))
+                last_expect = [[untyped(a, style)]]
+            elif k < 0.55:
+                steps.append(pstep([("lit", "select "), ("ph",), ("lit", ", "), ("ph",)], style, [a, b]))
+                last_expect = [[untyped(a, style), untyped(b, style)]]
+            elif k < 0.7 and style == "pyformat":
+                steps.append(pstep([("lit", "select "), ("key", "w"), ("lit", ", "), ("key", "on")], style, [a, b], mode="map", keys=["w", "on"]))
+                last_expect = [[untyped(a, style), untyped(b, style)]]
+            elif k < 0.85:
+                kid = next_id()
+                steps.append(pstep([("lit", f"insert into t (id, s, s2) values ({kid}, "), ("ph",), ("lit", ", "), ("ph",), ("lit", ")")], style, [a, b]))
+                steps.append(plain(f"select s, s2 from t where id = {kid}"))
+                last_expect = None
+            else:
+                ids = [next_id() for _ in range(rnd.randint(2, 3))]
+                sets = [[V(i, "int", "N:" + enc_str(repr(i)), "n"), fam_v(rnd.choice(fam)), fam_v(rnd.choice(fam))] for i in ids]
+                ins = [("lit", "insert into t (id, s, s2) values ("), ("ph",), ("lit", ", "), ("ph",), ("lit", ", "), ("ph",), ("lit", ")")]
+                steps.append(pstep(ins, style, None, many=sets, fetch=False))
+                steps.append(plain(f"select id, s, s2 from t where id >= {ids[0]} and id <= {ids[-1]} order by id"))
+                last_expect = None
+        add("seq", style, steps, expect=last_expect)
     # K8: wrong argument counts and `%` misuse (model: err) — must fail before anything is executed
     for _ in range(20 if chk.tier == "quick" else 200):
         k = next_id()
@@ -237,7 +281,7 @@ def make_cases(chk) -> list[dict]:
     for p in (None, (), [], {}):
         add("noparams", "pyformat", [{"cmd": "select 'a%%b', '%s'", "spec_cmd": "", "mode": "raw", "vals": [], "keys": None, "many": None, "fetch": True, "raw": p}],
             expect=[[("str", "a%%b"), ("str", "%s")]])
-    # K10 (findings): non-finite floats, NUL, big ints through qmark, duplicated qmark operand
+    # K10: non-finite floats, NUL, duplicated qmark operand (findings); ints beyond int64 through qmark (repaired, must hold)
     for f in (float("inf"), float("-inf"), float("nan")):
         v = V(f, "float", "X:" + enc_str(repr(f)), "f")
         add("select1", "pyformat", [pstep(sel([[("ph",)]], rnd), "pyformat", [v])], expect=[[untyped(v, "pyformat")]])
@@ -246,7 +290,7 @@ def make_cases(chk) -> list[dict]:
         v = v_str(gen_str(rnd, nul=True))
         add("select1", "pyformat", [pstep(sel([[("ph",)]], rnd), "pyformat", [v])], expect=[[untyped(v, "pyformat")]])
         add("select1", "qmark", [pstep(sel([[("ph",)]], rnd), "qmark", [v])], expect=[[untyped(v, "qmark")]])
-    for i in (2**64 - 1, 2**64, 10**20 + 1, 2**70, 10**37 + 7, -2**63 - 1, -10**30 - 1):
+    for i in (2**63, 2**64 - 1, 2**64, 10**20 + 1, 10**20 - 1, 2**70, 10**37 + 7, 10**38 - 1, -(10**38) + 1, -2**63 - 1, -10**30 - 1):
         v = V(i, "int", "N:" + enc_str(repr(i)), "n")
         k = next_id()
         ins = [("lit", f"insert into t (id, n) values ({k}, "), ("ph",), ("lit", ")")]
@@ -305,7 +349,7 @@ def canon(x):
 # ------------------------------------------------------------------------------------------------
 # real execution (workers)
 # ------------------------------------------------------------------------------------------------
-DDL = "create table t (id int, s varchar, n number(38,0), f float, b boolean, d date, ts timestamp_ntz, tm time, dc number(38,9))"
+DDL = "create table t (id int, s varchar, s2 varchar, n number(38,0), f float, b boolean, d date, ts timestamp_ntz, tm time, dc number(38,9))"
 
 
 def _outcome(fn):
@@ -318,11 +362,12 @@ def _outcome(fn):
         return ("err", type(e).__name__, None, None)
 
 
-def _run_steps(conn, steps, which):
-    """which = real | spec | impl"""
+def _run_steps(conn, steps, which, one_cursor=False):
+    """which = real | spec | impl;  one_cursor: every step of the case on the SAME cursor (kind `seq`)"""
     outs = []
+    shared = conn.cursor() if one_cursor else None
     for st in steps:
-        cur = conn.cursor()
+        cur = shared or conn.cursor()
 
         def go(st=st, cur=cur):
             if which == "real":
@@ -371,7 +416,7 @@ def _worker(shard):
             if case["kind"] == "snap":
                 res.append(_real_snap(case["ops"]))
                 continue
-            r = {"real": _run_steps(conns[case["style"]], case["steps"], "real")}
+            r = {"real": _run_steps(conns[case["style"]], case["steps"], "real", one_cursor=case["kind"] == "seq")}
             if case.get("run_spec"):
                 r["spec"] = _run_steps(conns["spec"], case["steps"], "spec")
             if case.get("run_impl"):
@@ -560,9 +605,6 @@ def _judge(chk, case, res):
             fb = [b for b in common.dec_list(st0["replies"][0].get("fbits", "[]")) if b != "-"]
             predicted = (case["kind"] == "typed" and last[0] == "rows" and len(last[1]) == 1 and last[1][0][0][0] in ("flt", "int") and len(fb) == 1
                          and struct.pack("<d", float(last[1][0][0][1])) == struct.pack("<Q", int(fb[0])) and res.get("impl", real) == real)
-        elif key == "C08/qmark-int-beyond-uint64":
-            v = st0["vals"][0].py
-            predicted = last[0] == "rows" and last[1] in ([[canon(float(v))]], [[("int", int(float(v)))]], [[("flt", float(v))]])
         elif key == "C08/qmark-duplicated":
             predicted = last == ("err", "InvalidInputException", None, None) and case["skel_reply"]["impl"] == "0"
         if predicted:
@@ -795,7 +837,7 @@ def run(chk) -> None:
                     "sqlglot Snowflake tokenizer string/raw-string/identifier/comment rules (Fs.Lex, compared on every run)",
                     "CPython str % for %s, %(k)s, %% (Fs.Params.fmt, compared on every run)",
                     "sqlglot DuckDB generator quote doubling and DuckDB's string lexer (duckGen/duckLex, compared on every run)",
-                    "DuckDB Python binding of prepared-statement values (qmark): ints ≥ 2^64 become DOUBLE"]
+                    "DuckDB Python binding of prepared-statement values (qmark): Decimal of ≤ 38 digits arrives exactly"]
     chk.assumptions = ["placeholders of generated templates stand between tokens (not glued to an identifier/number, not directly after a quote or a `-`)",
                        "values containing `$word` are checked by read-back only: executing them as written literals would pass through the variable phase (C15)",
                        "Decimal/date/datetime/time bound client-side are quoted texts (connector convention); compared as values in typed columns, as text in `select %s`"]
